@@ -413,7 +413,7 @@ func modeC03() {
 		for _, e := range c.Tree {
 			nchunks += int((e.Size + chunk - 1) / chunk)
 		}
-		if len(c.Tree) >= 1 && len(c.Tree) <= 2 && nchunks >= 1 && nchunks <= 3 && c.Streams <= 2 && c.Conns == 1 {
+		if len(c.Tree) <= 2 && nchunks <= 3 && c.Streams <= 2 && c.Conns == 1 {
 			tight[keyOf(c)] = true
 		}
 	}
@@ -435,7 +435,11 @@ func modeC03() {
 		if tight[keyOf(c)] {
 			bound = d1
 		}
-		explore(st, p, env, bound, deadline, baseCfg(), func(x *vrt.Exec, o *Outcome) {
+		cfg := baseCfg()
+		// on the tight set "demote the running thread" is a deviation too: one of them keeps a
+		// thread out of the way while the others run on, however many steps that takes
+		cfg.Demote = bound > 0
+		explore(st, p, env, bound, deadline, cfg, func(x *vrt.Exec, o *Outcome) {
 			checkC03(p, x, o)
 			res.Nontrivial(fmt.Sprintf("%s|%x", keyOf(c), x.Trace()))
 		})
